@@ -34,9 +34,9 @@ int liberasurecode_rs_vand_reconstruct(int *generator_matrix, char **data, char 
 #endif
 int g_bs;                                  /* ghost: the stripe's blocksize (symbolic, even) */
 static int G[N * K];
+unsigned cur_mask; int cur_dest, cur_unit;
 static uint16_t *cellp[N];                 /* ghost-cell model: buffer i is one 2-byte object = its 16-bit word at the ghost index */
 #define cell(i) (*cellp[i])
-unsigned cur_mask; int cur_dest, cur_unit;
 static int popc(unsigned x) { int c = 0; for (int i = 0; i < 32; i++) c += (x >> i) & 1u; return c; }
 /* contract of region_dot_product at the ghost word, product interpreted by the field specification */
 void region_dot_product(char **from_bufs, char *to_buf, int *matrix_row, int num_entries, int blocksize)
@@ -44,6 +44,8 @@ void region_dot_product(char **from_bufs, char *to_buf, int *matrix_row, int num
   __CPROVER_assert(blocksize == g_bs, "region_dot_product.requires: length == blocksize of the stripe");
   __CPROVER_assert(0 <= num_entries && num_entries <= 32, "region_dot_product.requires: 0 <= num_entries <= 32");
   __CPROVER_assert(__CPROVER_rw_ok(to_buf, 2), "region_dot_product.requires: to_buf is a whole stripe buffer");
+  for (int i = 0; i < N; i++) if ((char *)cellp[i] == to_buf)
+    __CPROVER_assert((cur_mask >> i) & 1u, "C15: the code writes only into buffers of missing fragments (never into a supplied fragment, not even transiently)");
   uint16_t acc = *(uint16_t *)to_buf;
   for (int i = 0; i < 32; i++) if (i < num_entries) {
     __CPROVER_assert(__CPROVER_r_ok(from_bufs[i], 2), "region_dot_product.requires: from_bufs[i] is a whole stripe buffer");
